@@ -119,7 +119,7 @@ def run(check, unrecognised):
 		'grammar reader harness/gens/c04.py and the anchors of SyntaxOps (see C04)',
 		'lark 1.3.1 is not modelled (see C04); the CLI control flow (LarkMultiFileParser, exit codes) is modelled by C17, here it is only run']
 	check.assume += ['columns are compared for ASCII documents and for errors that are not raised at the end of the text']
-	check.extra['rule'] = 'catalogue of 24 single-point corruption operators x applicable sites of all shipped .cats files and of seeded random ' \
+	check.extra['rule'] = f'catalogue of {len(c04.OPERATORS) + 1} single-point corruption operators (incl. a digit of a numeral replaced by a decimal digit of another script) x applicable sites of all shipped .cats files and of seeded random ' \
 		'documents (quick: all shipped files and 40 random documents, 1 site per operator per document; thorough: up to 12 sites per operator per shipped file, 300 random documents x 3 sites per operator); CLI runs on a 4-file import tree with one corrupted file'
 	for module in ('GrammarTerminals', 'SyntaxOps'):
 		if unrecognised.get(module):
